@@ -42,6 +42,14 @@ struct World {
     std::map<uintptr_t, size_t> imap;   // start -> requested size, every live block
     std::set<uintptr_t> once_released;  // addresses that were handed out and released (free-list reuse)
     uint32_t serial = 0;
+    // "recycling parent" mode (cfg[2]): what malloc does all the time - memory of a page the allocator gave back is handed
+    // out again, contents untouched, for a request that the parent serves (above the largest class).  The harness keeps up
+    // to 6 returned pages instead of freeing them and places one parent-served block at a time in each, 64..176 bytes
+    // above the page base, so that the old page header is never part of a block.
+    bool recycle = false;
+    std::vector<uintptr_t> pool;            // returned pages kept by the harness
+    std::map<uintptr_t, size_t> pool_live;  // parent-served blocks placed in them: start -> size
+    uint64_t pool_serves = 0, parent_acquires = 0;
 };
 
 extern "C" int __real_posix_memalign(void **, size_t, size_t);
@@ -70,10 +78,39 @@ extern "C" void __wrap_free(void *p) {
                     if (kv.first != it->first && kv.second.cls == it->second.cls) W->page_freed_with_siblings = true;
             W->page_frees++;
             W->pages.erase(it);
+            if (W->recycle && W->pool.size() < 6) {
+                W->pool.push_back((uintptr_t)p); // kept, contents as the allocator left them; really freed at the end of the case
+                return;
+            }
         }
     }
     __real_free(p);
 }
+
+// the parent allocator of "recycling" cases: galloc, except that a request above the largest class goes into a kept page
+// when one is free
+static void *rp_acquire(struct aws_allocator *, size_t n) {
+    if (W && W->recycle && n > 512) {
+        W->parent_acquires++;
+        for (uintptr_t pg : W->pool) {
+            bool busy = false;
+            for (auto &kv : W->pool_live)
+                if (kv.first >= pg && kv.first < pg + PAGE) busy = true;
+            size_t off = 64 + 16 * (size_t)(W->parent_acquires % 8);
+            if (!busy && off + n <= PAGE) {
+                W->pool_live[pg + off] = n;
+                W->pool_serves++;
+                return (void *)(pg + off);
+            }
+        }
+    }
+    return aws_mem_acquire(galloc::full(), n);
+}
+static void rp_release(struct aws_allocator *, void *p) {
+    if (W && W->pool_live.erase((uintptr_t)p)) return;
+    aws_mem_release(galloc::full(), p);
+}
+static struct aws_allocator g_recycling_parent = {rp_acquire, rp_release, nullptr, nullptr, nullptr};
 
 // ---------------------------------------------------------------------------------------------
 // generator
@@ -94,7 +131,7 @@ static uint64_t gen_size(uint64_t focus) {
 static Case gen_case() {
     Case c;
     uint64_t focus = FOCUS[pick(0, sizeof FOCUS / sizeof FOCUS[0] - 1)];
-    c.cfg = {pick(0, 1), focus};
+    c.cfg = {pick(0, 1), focus, (uint64_t)chance(35)};
     c.ops = op_list(400, [=] {
         switch (weighted({36, 8, 15, 30, 6, 1, 4})) {
         case 0: return mkop(ACQ, {gen_size(focus)});
@@ -137,7 +174,15 @@ static void run(const Case &c, Ctx &ctx) {
     } unhook;
 
     bool mt = c.c(0) % 2 == 1;
-    struct aws_allocator *sba = aws_small_block_allocator_new(galloc::full(), mt);
+    w.recycle = c.c(2) % 2 == 1;
+    struct PoolGuard { // the kept pages go back to the system whatever way the case ends
+        World &w;
+        ~PoolGuard() {
+            for (uintptr_t pg : w.pool) __real_free((void *)pg);
+            w.pool.clear();
+        }
+    } pool_guard{w};
+    struct aws_allocator *sba = aws_small_block_allocator_new(w.recycle ? &g_recycling_parent : galloc::full(), mt);
     PBT_CHECK(sba != nullptr, "aws_small_block_allocator_new returned NULL");
     {
         size_t ps = aws_small_block_allocator_page_size(sba), av = aws_small_block_allocator_page_size_available(sba);
@@ -160,7 +205,11 @@ static void run(const Case &c, Ctx &ctx) {
         size_t cls;
         uintptr_t base;
         size_t bsize;
-        if (galloc::containing(p, &base, &bsize) && (uintptr_t)p + n <= base + bsize) {
+        auto pl = w.pool_live.find((uintptr_t)p);
+        if (pl != w.pool_live.end()) {
+            PBT_CHECK(n <= pl->second, "%s(%zu) returned a parent block of %zu bytes", what, n, pl->second);
+            cls = 0; // served by the (recycling) parent, inside a page the allocator had given back
+        } else if (galloc::containing(p, &base, &bsize) && (uintptr_t)p + n <= base + bsize) {
             cls = 0; // served by the parent
         } else {
             uintptr_t pg = (uintptr_t)p & ~(uintptr_t)(PAGE - 1);
@@ -239,8 +288,13 @@ static void run(const Case &c, Ctx &ctx) {
         for (auto &kv : w.pages) per[kv.second.cls]++;
         for (auto &kv : per)
             PBT_CHECK(kv.second <= 1, "%s: everything released but class %zu keeps %d pages", when, kv.first, kv.second);
-        PBT_CHECK(galloc::live_blocks() == parent_baseline, "%s: everything released but %zu parent blocks are outstanding (baseline %zu)",
-                  when, galloc::live_blocks(), parent_baseline);
+        // (the allocator's own bookkeeping lists come from the parent too and may sit in a kept page)
+        size_t out = galloc::live_blocks() + w.pool_live.size();
+        PBT_CHECK(out == parent_baseline,
+                  "%s: everything released but %zu parent blocks are outstanding (baseline %zu; %zu of them placed in pages the allocator had returned "
+                  "earlier, first %p +%zu)",
+                  when, out, parent_baseline, w.pool_live.size(), w.pool_live.empty() ? nullptr : (void *)w.pool_live.begin()->first,
+                  w.pool_live.empty() ? (size_t)0 : w.pool_live.begin()->second);
     };
 
     verify_all("new");
@@ -298,7 +352,9 @@ static void run(const Case &c, Ctx &ctx) {
                 if (!old.cls) {
                     uintptr_t base;
                     size_t bsize = 0;
-                    PBT_CHECK(galloc::containing(p, &base, &bsize) && base == (uintptr_t)p, "parent-served block vanished");
+                    auto pl = w.pool_live.find((uintptr_t)p);
+                    if (pl != w.pool_live.end()) bsize = pl->second;
+                    else PBT_CHECK(galloc::containing(p, &base, &bsize) && base == (uintptr_t)p, "parent-served block vanished");
                     capacity = bsize;
                 }
                 PBT_CHECK(n <= capacity, "realloc(%zu -> %zu) kept the block in place although it only holds %zu bytes", old.req, n, capacity);
@@ -404,8 +460,11 @@ static void run(const Case &c, Ctx &ctx) {
     const char *m = nullptr;
     PBT_CHECK(galloc::check_all(&m), "%s", m ? m : "");
     PBT_CHECK(galloc::live_blocks() == 0, "destroy left %zu parent blocks (%zu bytes)", galloc::live_blocks(), galloc::live_bytes());
+    PBT_CHECK(w.pool_live.empty(), "destroy left %zu parent block(s) that had been placed in returned pages", w.pool_live.size());
 
     if (mt) ctx.tag("created_multi_threaded");
+    if (w.recycle) ctx.tag("recycling_parent");
+    if (w.pool_serves) ctx.tag("parent_block_inside_returned_page");
     if (cross_up) ctx.tag("realloc_small_to_parent");
     if (cross_down) ctx.tag("realloc_parent_to_small_size_in_place");
     if (shrink_keep) ctx.tag("realloc_shrink_in_place");
